@@ -1,10 +1,25 @@
 (* C09 — Client tree operations (upload, download, recursive list, remove) are faithful.
-   Property statements only; proofs live in Proofs/ClientTree.v. *)
+   Property statements only; proofs live in Proofs/ClientTree.v.
+
+   Vocabulary (Model/ClientTree.v): a tree is a rose tree of files and directories; the remote file
+   system is a tree `fs` and the session's working directory `cwd`; `resolve cwd p` is how the server
+   reads a path argument; `look fs q` is what an observer sees at the absolute path q (None, a
+   directory, or a file with its contents).  Two file systems with the same `look` at every path are
+   the same up to the order of directory entries, which is how equality of trees is stated below.
+   `graft fs A src` lays the tree src over whatever is at A (creating the directories down to A);
+   `placed fs A src` is its path-by-path description: below A the source, every prefix of A a
+   directory, every other path exactly what it was in fs ("and nothing else changed").
+   `compat fs A src`: no file/directory conflict between src and what already is at A (no prefix of A
+   is a file; a directory of src does not meet a file, a file of src does not meet a directory). *)
 From Coq Require Import ZArith List Bool Permutation.
 From Verif Require Import Lib.Sx Model.ClientTree Proofs.ClientTree.
 Import ListNotations.
 Open Scope Z_scope.
 
+(* ---------------------------------------------------------------------------------------------- *)
+(* F1: the code as it is misplaces the children of an uploaded directory.
+   upload("foo","x") of foo={a} into an empty server: /x/foo stays empty, a lands in /foo;
+   upload("foo","x/y",write_into=True): /x/y stays empty, a lands in /y. *)
 Theorem C09_upload_dir_refuted :
   (exists cwd fs nm src dst wi r,
       upload cwd fs nm src dst wi = Ok r /\
@@ -19,3 +34,137 @@ Theorem C09_upload_dir_refuted :
       look r [n_y; n_a] = Some (EFile [1]) /\ dst = mkp false [n_x; n_y] /\ wi = true).
 Proof. exact upload_dir_refuted. Qed.
 Print Assumptions C09_upload_dir_refuted.
+
+(* What the code as it is does, for EVERY input: the directory is made at the destination A, and each
+   node of the source is placed (one mkdir -p / one mkdir -p + STOR per node, breadth first) below
+   A' = cwd/<last component of the destination>, not below A. *)
+Theorem C09_upload_dir_actual : forall fixed cwd fs nm ch dst wi chc,
+  let dst' := final_destination nm dst wi in
+  let A := resolve cwd dst' in
+  let A' := resolve cwd (upload_anchor fixed wi dst' nm) in
+  lookup fs cwd = Some (Dir chc) ->
+  no_file_on fs A ->
+  run_ok A' (ensure_dir fs A) (bfs (tree_size (Dir ch)) [([], ch)]) ->
+  upload_gen fixed cwd fs nm (Dir ch) dst wi
+  = Ok (fold_left (sem_op A') (bfs (tree_size (Dir ch)) [([], ch)]) (ensure_dir fs A)).
+Proof. exact upload_gen_dir_actual. Qed.
+Print Assumptions C09_upload_dir_actual.
+
+(* The full statement, for the code after docs/fixes/C09-upload-destination.diff (upload_fixed):
+   every tree (empty directories, empty files, equal names on different levels), every destination
+   (empty, one or several components, absolute), both write_into, every cwd: the upload succeeds
+   (in particular it does not run out of fuel) and the remote file system is graft fs A src — below A
+   the source, the prefixes of A directories, and nothing else changed. *)
+Theorem C09_upload_spec_fixed : forall cwd fs nm ch dst wi chc,
+  let A := resolve cwd (final_destination nm dst wi) in
+  lookup fs cwd = Some (Dir chc) ->
+  wf_tree (Dir ch) ->
+  compat fs A (Dir ch) ->
+  exists fs', upload_fixed cwd fs nm (Dir ch) dst wi = Ok fs' /\
+              (forall q, look fs' q = look (graft fs A (Dir ch)) q) /\
+              (forall q, look fs' q = placed fs A (Dir ch) q).
+Proof.
+  intros cwd fs nm ch dst wi chc A Hc W C.
+  destruct (upload_spec_fixed cwd fs nm ch dst wi chc Hc W C) as (fs' & E & V).
+  exists fs'. repeat split; auto. intro q. rewrite V. symmetry. apply graft_placed; assumption.
+Qed.
+Print Assumptions C09_upload_spec_fixed.
+
+(* The code as it is meets the same statement exactly when the anchor of the children coincides with
+   the destination ... *)
+Theorem C09_upload_dir_spec_partial : forall cwd fs nm ch dst wi chc,
+  let dst' := final_destination nm dst wi in
+  let A := resolve cwd dst' in
+  resolve cwd (bug_anchor wi dst' nm) = A ->
+  lookup fs cwd = Some (Dir chc) ->
+  wf_tree (Dir ch) ->
+  compat fs A (Dir ch) ->
+  exists fs', upload cwd fs nm (Dir ch) dst wi = Ok fs' /\
+              (forall q, look fs' q = look (graft fs A (Dir ch)) q) /\
+              (forall q, look fs' q = placed fs A (Dir ch) q).
+Proof.
+  intros cwd fs nm ch dst wi chc dst' A EA Hc W C.
+  destruct (upload_dir_spec_partial cwd fs nm ch dst wi chc EA Hc W C) as (fs' & E & V).
+  exists fs'. repeat split; auto. intro q. rewrite V. symmetry. apply graft_placed; assumption.
+Qed.
+Print Assumptions C09_upload_dir_spec_partial.
+
+(* ... which holds for: write_into with a relative destination of at most one component; no
+   write_into with the empty destination (the only shapes the test-suite exercises). *)
+Theorem C09_upload_dir_partial_domain : forall cwd nm dst wi,
+  (wi = true /\ p_abs dst = false /\ (p_parts dst = [] \/ exists n, n <> [] /\ p_parts dst = [n])) \/
+  (wi = false /\ dst = mkp false []) ->
+  resolve cwd (bug_anchor wi (final_destination nm dst wi) nm)
+  = resolve cwd (final_destination nm dst wi).
+Proof. exact bug_anchor_ok. Qed.
+Print Assumptions C09_upload_dir_partial_domain.
+
+(* A single file: any destination that has a name, both write_into, both versions of the code. *)
+Theorem C09_upload_file_spec : forall fixed cwd fs nm c dst wi chc,
+  let dst' := final_destination nm dst wi in
+  let A := resolve cwd dst' in
+  lookup fs cwd = Some (Dir chc) ->
+  p_parts dst' <> [] ->
+  no_file_on fs (removelast A) ->
+  (forall ch, lookup fs A <> Some (Dir ch)) ->
+  upload_gen fixed cwd fs nm (File c) dst wi = Ok (graft fs A (File c)) /\
+  forall q, look (graft fs A (File c)) q = placed fs A (File c) q.
+Proof. exact upload_file_spec. Qed.
+Print Assumptions C09_upload_file_spec.
+
+(* make_directory is mkdir -p (exact, including the order of directory entries) *)
+Theorem C09_make_directory_spec : forall cwd fs p chc,
+  lookup fs cwd = Some (Dir chc) ->
+  no_file_on fs (resolve cwd p) ->
+  make_directory cwd fs p = Ok (ensure_dir fs (resolve cwd p)).
+Proof. exact make_directory_exact. Qed.
+Print Assumptions C09_make_directory_spec.
+
+(* ---------------------------------------------------------------------------------------------- *)
+(* A recursive listing returns every entry of the subtree exactly once, with its correct path and
+   type: the result is a permutation of the preorder enumeration of the subtree. *)
+Theorem C09_list_recursive_exact : forall cwd fs p t fuel,
+  lookup fs (resolve cwd p) = Some t ->
+  wf_tree t ->
+  (tree_size t <= fuel)%nat ->
+  exists l, list_path fuel cwd fs true p = Ok l /\
+            Permutation l (map (fun e => (mkp (p_abs p) (fst e), snd e)) (entries (p_parts p) t)).
+Proof. exact list_recursive_exact. Qed.
+Print Assumptions C09_list_recursive_exact.
+
+(* ---------------------------------------------------------------------------------------------- *)
+(* Recursive remove deletes the subtree (exactly: the result is remove_at fs a, entry order included),
+   the subtree is gone and every path outside it is untouched. *)
+Theorem C09_remove_spec : forall cwd t fuel fs p,
+  (tree_size t <= fuel)%nat ->
+  lookup fs (resolve cwd p) = Some t ->
+  resolve cwd p <> [] ->
+  remove fuel cwd fs p = Ok (remove_at fs (resolve cwd p)) /\
+  (forall q, is_prefix (resolve cwd p) q = false -> look (remove_at fs (resolve cwd p)) q = look fs q) /\
+  (wf_tree fs -> forall r, look (remove_at fs (resolve cwd p)) (resolve cwd p ++ r) = None).
+Proof.
+  intros cwd t fuel fs p Hf L Ha. split; [apply (remove_exact cwd t); assumption|]. split.
+  - intros q P. apply look_remove_at_other. assumption.
+  - intros W r. eapply look_remove_at_gone; eauto.
+Qed.
+Print Assumptions C09_remove_spec.
+
+(* ---------------------------------------------------------------------------------------------- *)
+(* non-vacuity: the hypotheses are satisfiable on a non-trivial state (a fresh destination x/y under
+   cwd /w, a source with an empty directory, an empty file and equal names on two levels) *)
+Example C09_hypotheses_satisfiable :
+  let fs := Dir [([119], Dir [([111], File [1])])] in
+  let src := [(n_a, Dir [(n_a, File []); (n_x, Dir [])]); (n_x, File [7])] in
+  lookup fs [[119]] = Some (Dir [([111], File [1])]) /\
+  wf_tree (Dir src) /\
+  compat fs (resolve [[119]] (final_destination n_foo (mkp false [n_x; n_y]) false)) (Dir src) /\
+  upload_fixed [[119]] fs n_foo (Dir src) (mkp false [n_x; n_y]) false
+  = Ok (graft fs [[119]; n_x; n_y; n_foo] (Dir src)).
+Proof.
+  cbv zeta. split; [reflexivity|]. split.
+  - simpl. repeat (split || constructor); simpl; intuition discriminate.
+  - split; [|vm_compute; reflexivity].
+    apply compat_fresh; [|reflexivity].
+    intros q P c. apply is_prefix_true in P as [r P].
+    destruct q as [|q1 [|q2 [|q3 [|q4 [|q5 q]]]]]; simpl in P; inversion P; subst; vm_compute; discriminate.
+Qed.
